@@ -235,7 +235,7 @@ class Prop(BaseProp):
         case, sched = v["case"], v["schedule"]
         # 1. simpler schedules
         for pol in _simpler_policies(sched):
-            yield case, {"policy": pol, "seed": sched["seed"], "p": 0.3, "overrides": {}}
+            yield case, {"policy": pol, "seed": sched["seed"], "p": 0.3, "overrides": {}, "sites": {}}
         if sched["overrides"]:
             for k in list(sched["overrides"]):
                 o = dict(sched["overrides"])
